@@ -10,6 +10,7 @@ from ..core.forms import (DIMLESS, NotPolynomial, Poly, Rat, U, UnitError, canon
 from ..core.pyrepo import Repo, calls_in, dotted, norm_stmt
 from ..core.report import AnalysisError
 from .c06 import collect
+from .c15 import eval_pred
 
 # sysfs units (Documentation/hwmon/sysfs-interface.rst, thermal/sysfs-api.rst,
 # cpu-freq/user-guide.rst, power/power_supply_class.rst)
@@ -148,7 +149,9 @@ def run(ctx):
     # ------------------------------------------------------------------- R2
     ctx.rule("C19.R2", "per-entry tolerance: each read of a sensor's reading file "
              "sits in the loop inside a try whose handler covers OSError and skips "
-             "the entry", floor=3)
+             "the entry; discovery takes the UNION of the flat hwmon*/ and the nested "
+             "hwmon*/device/ layouts for temperatures and for fans alike", floor=5)
+    _discovery(ctx, repo, A, pm)
     for q in ("sensors_temperatures", "sensors_fans"):
         f = repo.func(pm, q)
         reads = []
@@ -276,6 +279,64 @@ def run(ctx):
                  f"{'' if ok2 else 'time_to_empty form changed; '}"
                  f"{'' if ok3 else 'UNLIMITED/UNKNOWN convention changed'}")
     cfg = A.cfg(sb)
+    # domain of the energy/power formula: used for EVERY known reading (a gauge
+    # reading 0 means 0 seconds left, it is not "unknown"), never with a missing one
+    form = [n for n in cfg.nodes if n.kind == "stmt" and isinstance(n.stmt, ast.Assign)
+            and any(isinstance(x, ast.Constant) and x.value == 3600 for x in ast.walk(n.stmt.value))
+            and any(isinstance(x, ast.Div) for x in ast.walk(n.stmt.value))]
+    if form:
+        fnode = form[0]
+        div = [x for x in ast.walk(fnode.stmt.value) if isinstance(x, ast.BinOp)
+               and isinstance(x.op, ast.Div)][0]
+        num_v = [x.id for x in ast.walk(div.left) if isinstance(x, ast.Name)]
+        den_v = [x.id for x in ast.walk(div.right) if isinstance(x, ast.Name)]
+        gs = [g for g in cfg.guards(fnode)
+              if {x.id for x in ast.walk(g[0]) if isinstance(x, ast.Name)}
+              & set(num_v + den_v)]      # the other guards (mains, no battery) are assumed met
+        probs, undecided = [], False
+        if len(num_v) == 1 and len(den_v) == 1:
+            others = {x.id for e, _, _ in gs for x in ast.walk(e) if isinstance(x, ast.Name)} \
+                - {num_v[0], den_v[0]}
+            for now in (None, 0, 0.0, 5):
+                for pw in (None, 0, 7):
+                    env = {num_v[0]: now, den_v[0]: pw}
+                    env.update({o: None for o in others})    # e.g. power_plugged unknown
+                    reach = True
+                    for e, pol, _ in gs:
+                        v = eval_pred(e, env)
+                        if v not in (True, False):
+                            undecided = True
+                            continue
+                        if v is not pol:
+                            reach = False
+                    if undecided:
+                        continue
+                    if (now is None or pw is None) and reach:
+                        probs.append(f"the formula is evaluated with {num_v[0]}={now!r}, "
+                                     f"{den_v[0]}={pw!r} (a missing reading)")
+                    if now is not None and pw not in (None, 0) and not reach:
+                        probs.append(f"the formula is skipped for {num_v[0]}={now!r}, "
+                                     f"{den_v[0]}={pw!r}: a known reading (an empty gauge "
+                                     f"means 0 seconds left) is reported as unknown")
+                    if now is not None and pw == 0 and reach:
+                        trys = [t_ for t_ in ast.walk(sb.node) if isinstance(t_, ast.Try)
+                                and any(fnode.stmt is x for b in t_.body for x in ast.walk(b))]
+                        if not any(handler_catches(h, ["ZeroDivisionError"])
+                                   for t_ in trys for h in t_.handlers):
+                            probs.append(f"{den_v[0]}=0 reaches the division with no "
+                                         f"ZeroDivisionError handler")
+        else:
+            undecided = True
+        if probs:
+            ctx.fail("C19.R3", "battery:secsleft-domain", sb.file, fnode.line, sb.qual,
+                     "; ".join(sorted(set(probs))[:3]))
+        elif undecided:
+            ctx.advisory("C19.R3 battery:secsleft-domain: guard outside the evaluated subset; "
+                         "not decided")
+            ctx.ok("C19.R3", "battery:secsleft-domain", sample="not decided", nontrivial=False)
+        else:
+            ctx.ok("C19.R3", "battery:secsleft-domain",
+                   sample="formula reached iff both readings are known; /0 handled")
     unl = [n for n in cfg.nodes if n.kind == "stmt" and isinstance(n.stmt, ast.Assign)
            and "POWER_TIME_UNLIMITED" in norm_stmt(n.stmt.value)]
     if unl and all(("truthy", "power_plugged", True) in facts(cfg, n) for n in unl):
@@ -331,3 +392,78 @@ def run(ctx):
             "inventory, control-dependence of the conventions.",
             "abstract interpretation (units incl. loop fixed point, forms), handler "
             "inventory")
+
+
+def _glob_sites(repo, A, pm, f, binding=None, depth=0):
+    """[(pattern text, function, call node, guarded_by_glob_result)] for the
+    glob.glob calls of f and of the same-module helpers it calls with constant
+    arguments (their f-string patterns instantiated)."""
+    out = []
+    binding = binding or {}
+    cfg = A.cfg(f)
+    globvars = {dotted(st.targets[0]) for st in ast.walk(f.node)
+                if isinstance(st, (ast.Assign,)) and any(
+                    isinstance(x, ast.Call) and dotted(x.func) == "glob.glob"
+                    for x in ast.walk(st.value))}
+
+    def text(e):
+        if isinstance(e, ast.Constant) and isinstance(e.value, str):
+            return e.value
+        if isinstance(e, ast.JoinedStr):
+            parts = []
+            for v in e.values:
+                if isinstance(v, ast.Constant):
+                    parts.append(v.value)
+                elif isinstance(v, ast.FormattedValue) and dotted(v.value) in binding:
+                    parts.append(str(binding[dotted(v.value)]))
+                else:
+                    return None
+            return "".join(parts)
+        if isinstance(e, ast.BinOp) and isinstance(e.op, (ast.Add, ast.Mod)):
+            return None
+        return None
+    for c in calls_in(f.node):
+        if dotted(c.func) == "glob.glob" and c.args:
+            t = text(c.args[0])
+            dep = False
+            for n in cfg.owners(c):
+                for e, pol, _ in cfg.guards(n):
+                    if {x.id for x in ast.walk(e) if isinstance(x, ast.Name)} & globvars:
+                        dep = True
+            out.append((t, f, c, dep))
+        elif depth < 2 and isinstance(c.func, ast.Name):
+            callee = repo.func(pm, c.func.id, required=False)
+            if callee is not None and callee.node is not f.node:
+                params = [a.arg for a in callee.node.args.args]
+                b = {}
+                for p_, a in zip(params, c.args):
+                    if isinstance(a, ast.Constant):
+                        b[p_] = a.value
+                for k in c.keywords:
+                    if isinstance(k.value, ast.Constant):
+                        b[k.arg] = k.value
+                if any(dotted(x.func) == "glob.glob" for x in calls_in(callee.node)):
+                    out += _glob_sites(repo, A, pm, callee, b, depth + 1)
+    return out
+
+
+def _discovery(ctx, repo, A, pm):
+    for q, kind in (("sensors_temperatures", "temp"), ("sensors_fans", "fan")):
+        f = repo.func(pm, q)
+        sites = _glob_sites(repo, A, pm, f)
+        flat = [s_ for s_ in sites if s_[0] == f"/sys/class/hwmon/hwmon*/{kind}*_*"]
+        nest = [s_ for s_ in sites if s_[0] == f"/sys/class/hwmon/hwmon*/device/{kind}*_*"]
+        key = f"discovery:{q}"
+        if not flat or not nest:
+            ctx.fail("C19.R2", key, f.file, f.node.lineno, f.qual,
+                     f"{q}() does not look at both hwmon layouts (flat: {bool(flat)}, "
+                     f"nested device/: {bool(nest)}); patterns seen: "
+                     f"{sorted(str(s_[0]) for s_ in sites)}")
+        elif any(s_[3] for s_ in flat + nest):
+            bad = [s_ for s_ in flat + nest if s_[3]][0]
+            ctx.fail("C19.R2", key, bad[1].file, bad[2].lineno, bad[1].qual,
+                     f"`{norm_stmt(bad[2])}` only runs depending on what the other layout "
+                     f"found: on a tree where one chip is flat and another nested under "
+                     f"device/, the chips of the second layout silently disappear")
+        else:
+            ctx.ok("C19.R2", key, sample="glob(hwmon*/X) + glob(hwmon*/device/X), unconditionally")
